@@ -21,6 +21,7 @@ RULE = (
     "a non-innermost frame, by a disposable's state, or by the default/MissingState path after an earlier lookup of the "
     "same type; distinct = distinct program"
 )
+RULE += '; the family has distinct types that share one qualified name (factory-made classes, G[Sequence[int]] / G[Sequence[str]]) and instances whose Missing-able attribute is MISSING'
 LEVEL_TEXT = (
     "Differential against a reference environment stack that shares only the program AST with the interpreter: every "
     "lookup result (identity of the returned instance, default, default-constructed value, MissingState, "
@@ -160,7 +161,7 @@ def run_case(case) -> Outcome:
                     after = "after-earlier-lookup" if name in seen_types else "first-lookup"
                     out.violate("default", f"C01.default/explicit-default-not-returned/{after}", f"lookup {name} at {path}: got {r}")
             elif kind == "constructed":
-                ok = r[0] == "val" and r[1][0] == "unknown" and r[1][1] == P.FAMILY[name].__name__ and r[1][2] == repr(P.FAMILY[name]())
+                ok = r[0] == "val" and r[1][0] == "unknown" and r[1][1] == name and r[1][2] == repr(P.FAMILY[name]())
                 if not ok:
                     out.violate("constructed", "C01.constructed/not-a-default-constructed-instance", f"lookup {name} at {path}: got {r}")
             elif kind == "MissingState":
@@ -234,11 +235,13 @@ def strategy(tier):
         """one chain of 6..14 nested blocks, most of them supplying a value of one of a few types (so that the same type
         is supplied at several levels), probed at the bottom and after every level while unwinding"""
         depth = draw(st.integers(6, 14))
-        types = draw(st.lists(st.sampled_from(["A", "B", "R", "A2", "F", "U"]), min_size=1, max_size=3, unique=True))
+        types = draw(st.lists(st.sampled_from(["A", "B", "R", "A2", "F", "U", "T1", "T2", "GQ1", "GQ2", "M"]), min_size=1, max_size=3, unique=True))
         all_probe = {"k": "probe", "lookups": [[t, False] for t in types] + [[types[0], True]]}
         node = [dict(all_probe)]
         for level in range(depth, 0, -1):
             supplies = [] if draw(st.integers(0, 5)) == 0 else [{"type": draw(st.sampled_from(types)), "v": (level % 9) + 1}]
+            if supplies and supplies[0]["type"] == "M" and draw(st.booleans()):
+                supplies[0]["v"] = None  # attribute left MISSING
             kind = draw(st.sampled_from(["async", "sync", "updated", "updated"])) if level > 1 else "async"
             if kind == "updated":
                 blk = {"k": "updated", "state": supplies, "body": node}
